@@ -643,7 +643,12 @@ func handleInputStream(s *Session, handler Handler) (err error) {
 		TokenWriter: w,
 		id:          id,
 	}
-	if err := handler.HandleXMPP(rw, &start); err != nil {
+	// The reader given to the handler is limited to the current element, so
+	// io.EOF from a handler means that it ran off the end of that element (eg.
+	// the multiplexer on an IQ without a payload), not that the stream ended.
+	// Do not let the serve loop mistake it for a clean end of stream: carry on,
+	// which also sends the default error reply for an unanswered get/set IQ.
+	if err := handler.HandleXMPP(rw, &start); err != nil && err != io.EOF {
 		return err
 	}
 
